@@ -685,4 +685,30 @@ Proof.
   split. { cbn. repeat split; intros; lia. }
   repeat split; vm_compute; reflexivity.
 Qed.
+(* ---- the grid class Circuit: what is NOT proved, stated in full ----
+   Circuit shares the simulator branch (the calls are the same: correspondence on every run, its own exceptions through C11's gstep), but
+   Circuit.statevector (kron-reduce per column, product of the columns) has no Coq model, so there is no end-to-end theorem for it.  The
+   builder half, stated: constructed with depth = the number of layers the shot fills (= len(data) - n_rz + 1 when every kept non-rz
+   instruction issues calls), the grid builder gstep fed the same operations never raises and its columns are exactly shot_layers *)
+Definition C03_grid_builder_full : Prop :=
+  forall (T : Type) (rO rI : T) (radd rmul : T -> T -> T) (ropp : T -> T) (A D : Type) (K : consts T A) (ph : A -> Z * Z)
+         (n : nat) (gs : list (group A D)),
+  (1 <= n)%nat -> Forall (group_wf A D n) gs -> Forall (group_adj A D) gs ->
+  exists sg, gexec (mat T) (mid2 T rO rI) (g_init (mat T) n (List.length (shot_layers T rO rI radd rmul ropp A D K n gs)))
+               (shot_ops T rO rI radd rmul ropp A D K ph n gs) = Ok (sg, nil) /\
+    map (map (ent_den T)) (g_content (mat T) sg) = shot_layers T rO rI radd rmul ropp A D K n gs.
+(* computed instance (matrices abstracted to unit, as in the correspondence run): on the 14 calls of the example above, with the depth the
+   simulator passes, the grid builder and the layered builder hold the same five columns / layers *)
+Example C03_grid_builder_example :
+  let data := [mkinstr OpRz [0%N] []; mkinstr OpDelay [3%N] []; mkinstr OpCx [2%N; 1%N] []; mkinstr OpBarrier [0%N; 1%N; 2%N; 3%N] [];
+               mkinstr OpDelay [1%N] []; mkinstr OpMeasure [1%N] [1%N]; mkinstr OpEcr [0%N; 1%N] []; mkinstr OpX [2%N] [];
+               mkinstr OpMeasure [0%N] [0%N]; mkinstr OpMeasure [2%N] [2%N]] in
+  let cs := match translate_calls_layered nat nat (fun j => j) (fun j => j) [0%N; 1%N; 2%N] 3%Z data with Ok c => c | Err _ => nil end in
+  let cols := [[Builders.En2 tt; Builders.EnOne; Builders.En4 tt]; [Builders.En2 tt; Builders.En2 tt; Builders.En2 tt];
+               [Builders.En4 tt; Builders.EnOne; Builders.En2 tt]; [Builders.En2 tt; Builders.En2 tt; Builders.En2 tt];
+               [Builders.En2 tt; Builders.En2 tt; Builders.En2 tt]] in
+  List.length cs = 14%nat /\ depth_of [0%N; 1%N; 2%N] data = Ok 5%nat /\
+  rmap (fun r => (g_content unit (fst r), snd r)) (gexec unit tt (g_init unit 3 5) (map unit_op cs)) = Ok (cols, nil) /\
+  rmap (fun r => (l_content unit (fst r), snd r)) (lexec unit tt (l_init unit 3 BkStandard) (map unit_op cs)) = Ok (cols, nil).
+Proof. cbv zeta. split; [vm_compute; reflexivity|]. split; [vm_compute; reflexivity|]. split; vm_compute; reflexivity. Qed.
 (* [block of agent/c03lay -- END] *)
